@@ -118,6 +118,8 @@ def passthrough():
 
 
 def real(name: str):
+    if not _installed:
+        install()
     return _real[name]
 
 
